@@ -529,9 +529,9 @@ impl ZeroCopyBufferPool {
             && let Some(mut buffer) = pool.pop()
         {
             buffer.clear();
-            if buffer.capacity() < size {
-                buffer.reserve(size - buffer.capacity());
-            }
+            // The buffer is empty now: reserve() counts from its length, so ask
+            // for the whole size (a no-op when the capacity already suffices).
+            buffer.reserve(size);
             self.stats.hits += 1;
             return buffer;
         }
